@@ -1,3 +1,184 @@
-import QtyModel.Tables
+import QtyModel.Lemmas.Conv
+/-
+  C03 — Sum, difference and ratio of like quantities honour units.
+
+  Property theorems only; quantifiers as in C01 (every arithmetic with `Laws`,
+  every table, every unit pair, every amount).  The numeric bounds are literally
+  the expressions evaluated by the run-time oracles `Oracle.c03addsub`, `Oracle.c03div`.
+-/
 namespace Qty.C03
+open Qty
+
+variable {A U : Type} [DecidableEq U] (R : Arith A) (T : QT A U)
+
+/-- `a + b` / `a - b` are expressed in the left operand's unit -/
+theorem add_unit (a b r : Q A U) (h : hrAdd R T a b = .ok r) : r.unit = a.unit := by
+  unfold hrAdd at h
+  cases he : equivAmount R T b a.unit with
+  | error e => simp [he, bind, Except.bind] at h
+  | ok v =>
+    cases hs : R.add a.amount v with
+    | error e => simp [he, hs, bind, Except.bind] at h
+    | ok w => simp [he, hs, bind, Except.bind, pure, Except.pure] at h; rw [← h]
+
+theorem sub_unit (a b r : Q A U) (h : hrSub R T a b = .ok r) : r.unit = a.unit := by
+  unfold hrSub at h
+  cases he : equivAmount R T b a.unit with
+  | error e => simp [he, bind, Except.bind] at h
+  | ok v =>
+    cases hs : R.sub a.amount v with
+    | error e => simp [he, hs, bind, Except.bind] at h
+    | ok w => simp [he, hs, bind, Except.bind, pure, Except.pure] at h; rw [← h]
+
+/-- when both operands share a unit the results are exactly the amount type's own
+`+`, `-`, `/` applied to the two amounts -/
+theorem add_same_unit (a b : Q A U) (h : b.unit = a.unit) :
+    hrAdd R T a b = (R.add a.amount b.amount).map (fun x => ⟨x, a.unit⟩) := by
+  simp only [hrAdd, equivAmount, h, if_true, bind, Except.bind, pure, Except.pure]
+  cases R.add a.amount b.amount <;> rfl
+
+theorem sub_same_unit (a b : Q A U) (h : b.unit = a.unit) :
+    hrSub R T a b = (R.sub a.amount b.amount).map (fun x => ⟨x, a.unit⟩) := by
+  simp only [hrSub, equivAmount, h, if_true, bind, Except.bind, pure, Except.pure]
+  cases R.sub a.amount b.amount <;> rfl
+
+theorem div_same_unit (a b : Q A U) (h : b.unit = a.unit) :
+    hrDiv R T a b = R.div a.amount b.amount := by
+  simp [hrDiv, equivAmount, h, bind, Except.bind]
+
+/-- mixed units: the magnitude of `a ± b` equals the exact sum / difference of the operands'
+magnitudes up to `|s₁|·(Ea(|x| + ŷmax) + convBoundIn)` -/
+theorem addsub_mag {M : ErrModel} (L : Laws R M) (isSub : Bool) (a b : Q A U) (s1 s2 x y : Rat)
+    (hne : b.unit ≠ a.unit)
+    (hs1 : R.val (T.scale a.unit) = some s1) (hs2 : R.val (T.scale b.unit) = some s2) (hs1ne : s1 ≠ 0)
+    (hx : R.val a.amount = some x) (hy : R.val b.amount = some y)
+    (hsafe : Oracle.convSafe M s2 s1 y = true)
+    (hsafe2 : M.safe (ratAbs x + (ratAbs (s2 / s1) * ratAbs y + Oracle.convBoundIn M s2 s1 y)
+      + M.Ea (ratAbs x + (ratAbs (s2 / s1) * ratAbs y + Oracle.convBoundIn M s2 s1 y))) = true) :
+    ∃ r z, (if isSub then hrSub R T a b else hrAdd R T a b) = .ok r ∧ r.unit = a.unit ∧
+      R.val r.amount = some z ∧
+      ratAbs (z * s1 - (if isSub then x * s1 - y * s2 else x * s1 + y * s2)) ≤
+        ratAbs s1 * (M.Ea (ratAbs x + (ratAbs (s2 / s1) * ratAbs y + Oracle.convBoundIn M s2 s1 y))
+          + Oracle.convBoundIn M s2 s1 y) := by
+  obtain ⟨c, y', heq, hy'v, hy'e, hy'b⟩ := equiv_ok R T L b a.unit s2 s1 y hne hs2 hs1 hs1ne hy hsafe
+  have hcb := convBoundIn_nonneg L.wf s2 s1 y
+  have hEa := L.wf.Ea_nonneg (ratAbs x + (ratAbs (s2 / s1) * ratAbs y + Oracle.convBoundIn M s2 s1 y))
+  simp only [ratAbs_eq_abs] at hsafe2 hEa ⊢
+  set W := |x| + (|s2 / s1| * |y| + Oracle.convBoundIn M s2 s1 y) with hW
+  have hW0 : 0 ≤ W := by positivity
+  cases isSub with
+  | false =>
+    have hsum : ratAbs (x + y') ≤ ratAbs W := by
+      simp only [ratAbs_eq_abs]
+      rw [abs_of_nonneg hW0]
+      calc |x + y'| ≤ |x| + |y'| := abs_add_le _ _
+        _ ≤ W := by linarith
+    have hs3 : M.safe (x + y') = true := by
+      apply L.wf.safe_mono _ _ _ hsafe2
+      refine le_trans hsum ?_
+      simp only [ratAbs_eq_abs]
+      exact abs_le_abs_of_nonneg hW0 (by linarith)
+    obtain ⟨d, z, hadd, hzv, hze⟩ := L.add_ok _ _ x y' hx hy'v hs3
+    refine ⟨⟨d, a.unit⟩, z, ?_, rfl, hzv, ?_⟩
+    · simp [hrAdd, heq, hadd, bind, Except.bind, pure, Except.pure]
+    · have hE2 := L.wf.Ea_mono _ _ hsum
+      rw [ratAbs_eq_abs] at hze
+      have key : z * s1 - (x * s1 + y * s2) = s1 * ((z - (x + y')) + (y' - s2 / s1 * y)) := by
+        field_simp; ring
+      simp only [Bool.false_eq_true, if_false]
+      rw [key, abs_mul]
+      apply mul_le_mul_of_nonneg_left _ (abs_nonneg s1)
+      calc |z - (x + y') + (y' - s2 / s1 * y)| ≤ |z - (x + y')| + |y' - s2 / s1 * y| := abs_add_le _ _
+        _ ≤ _ := by linarith
+  | true =>
+    have hsum : ratAbs (x - y') ≤ ratAbs W := by
+      simp only [ratAbs_eq_abs]
+      rw [abs_of_nonneg hW0]
+      calc |x - y'| ≤ |x| + |y'| := abs_sub _ _
+        _ ≤ W := by linarith
+    have hs3 : M.safe (x - y') = true := by
+      apply L.wf.safe_mono _ _ _ hsafe2
+      refine le_trans hsum ?_
+      simp only [ratAbs_eq_abs]
+      exact abs_le_abs_of_nonneg hW0 (by linarith)
+    obtain ⟨d, z, hadd, hzv, hze⟩ := L.sub_ok _ _ x y' hx hy'v hs3
+    refine ⟨⟨d, a.unit⟩, z, ?_, rfl, hzv, ?_⟩
+    · simp [hrSub, heq, hadd, bind, Except.bind, pure, Except.pure]
+    · have hE2 := L.wf.Ea_mono _ _ hsum
+      rw [ratAbs_eq_abs] at hze
+      have key : z * s1 - (x * s1 - y * s2) = s1 * ((z - (x - y')) - (y' - s2 / s1 * y)) := by
+        field_simp; ring
+      simp only [if_true]
+      rw [key, abs_mul]
+      apply mul_le_mul_of_nonneg_left _ (abs_nonneg s1)
+      calc |z - (x - y') - (y' - s2 / s1 * y)| ≤ |z - (x - y')| + |y' - s2 / s1 * y| := abs_sub _ _
+        _ ≤ _ := by linarith
+
+/-- mixed units: `a / b` is the dimensionless ratio of the magnitudes, `x·s₁/(y·s₂) = x/(ρ·y)`
+with `ρ = s₂/s₁`, up to `|x|·cb/((|ρy|−cb)·|ρy|) + E(|x|/(|ρy|−cb))` -/
+theorem div_ratio {M : ErrModel} (L : Laws R M) (a b : Q A U) (s1 s2 x y : Rat)
+    (hne : b.unit ≠ a.unit)
+    (hs1 : R.val (T.scale a.unit) = some s1) (hs2 : R.val (T.scale b.unit) = some s2) (hs1ne : s1 ≠ 0)
+    (hx : R.val a.amount = some x) (hy : R.val b.amount = some y)
+    (hsafe : Oracle.convSafe M s2 s1 y = true)
+    (hcb : Oracle.convBoundIn M s2 s1 y < ratAbs (s2 / s1 * y))
+    (hsafe2 : M.safe (ratAbs x / (ratAbs (s2 / s1 * y) - Oracle.convBoundIn M s2 s1 y)
+      + M.E (ratAbs x / (ratAbs (s2 / s1 * y) - Oracle.convBoundIn M s2 s1 y))) = true) :
+    ∃ c z, hrDiv R T a b = .ok c ∧ R.val c = some z ∧
+      ratAbs (z - x / (s2 / s1 * y)) ≤
+        ratAbs x * Oracle.convBoundIn M s2 s1 y /
+            ((ratAbs (s2 / s1 * y) - Oracle.convBoundIn M s2 s1 y) * ratAbs (s2 / s1 * y))
+          + M.E (ratAbs x / (ratAbs (s2 / s1 * y) - Oracle.convBoundIn M s2 s1 y)) := by
+  obtain ⟨c, y', heq, hy'v, hy'e, _⟩ := equiv_ok R T L b a.unit s2 s1 y hne hs2 hs1 hs1ne hy hsafe
+  have hcb0 := convBoundIn_nonneg L.wf s2 s1 y
+  simp only [ratAbs_eq_abs] at hcb hsafe2 ⊢
+  set t := s2 / s1 * y with ht
+  set cb := Oracle.convBoundIn M s2 s1 y with hcbdef
+  have hlo : 0 < |t| - cb := by linarith
+  have ht0 : 0 < |t| := by linarith
+  -- |y'| ≥ |t| - cb > 0
+  have hy'lo : |t| - cb ≤ |y'| := by
+    have := abs_sub_abs_le_abs_sub t y'
+    rw [abs_sub_comm] at this
+    linarith
+  have hy'ne : y' ≠ 0 := by
+    intro h; rw [h, abs_zero] at hy'lo; linarith
+  have hy'pos : 0 < |y'| := abs_pos.mpr hy'ne
+  have hq : ratAbs (x / y') ≤ ratAbs (|x| / (|t| - cb)) := by
+    simp only [ratAbs_eq_abs]
+    rw [abs_div, abs_div, abs_abs, abs_of_pos hlo]
+    exact div_le_div_of_nonneg_left (abs_nonneg x) hlo hy'lo
+  have hEq := L.wf.E_nonneg (|x| / (|t| - cb))
+  have hs3 : M.safe (x / y') = true := by
+    apply L.wf.safe_mono _ _ _ hsafe2
+    refine le_trans hq ?_
+    simp only [ratAbs_eq_abs]
+    have h0 : 0 ≤ |x| / (|t| - cb) := by positivity
+    exact abs_le_abs_of_nonneg h0 (by linarith)
+  obtain ⟨d, z, hdiv, hzv, hze⟩ := L.div_ok _ _ x y' hx hy'v hy'ne hs3
+  refine ⟨d, z, ?_, hzv, ?_⟩
+  · simp [hrDiv, heq, hdiv, bind, Except.bind]
+  · have hE2 := L.wf.E_mono _ _ hq
+    rw [ratAbs_eq_abs] at hze
+    have htne : t ≠ 0 := abs_pos.mp ht0
+    have key : z - x / t = (z - x / y') + x * (t - y') / (y' * t) := by
+      field_simp; ring
+    rw [key]
+    have h2 : |x * (t - y') / (y' * t)| ≤ |x| * cb / ((|t| - cb) * |t|) := by
+      rw [abs_div, abs_mul, abs_mul]
+      have hnum : |x| * |t - y'| ≤ |x| * cb := by
+        apply mul_le_mul_of_nonneg_left _ (abs_nonneg x)
+        rw [abs_sub_comm]; exact hy'e
+      have hden : (|t| - cb) * |t| ≤ |y'| * |t| := mul_le_mul_of_nonneg_right hy'lo (le_of_lt ht0)
+      have hdenpos : 0 < (|t| - cb) * |t| := mul_pos hlo ht0
+      calc |x| * |t - y'| / (|y'| * |t|) ≤ |x| * cb / (|y'| * |t|) := by
+            apply div_le_div_of_nonneg_right hnum (by positivity)
+        _ ≤ |x| * cb / ((|t| - cb) * |t|) := by
+            apply div_le_div_of_nonneg_left (by positivity) hdenpos hden
+    calc |z - x / y' + x * (t - y') / (y' * t)| ≤ |z - x / y'| + |x * (t - y') / (y' * t)| := abs_add_le _ _
+      _ ≤ _ := by linarith
+
+/-- non-vacuity: the hypotheses of `addsub_mag` / `div_ratio` hold for 2 ft + 7 in (decimal) -/
+example : Oracle.convSafe ErrModel.dec (254 / 10000) (3048 / 10000) 7 = true := by decide +kernel
+
 end Qty.C03
